@@ -55,6 +55,9 @@ var c11Scens = []scen{
 	{"after refusals: totp||totp||totp-validate", []string{"refused-calls"}, [][]string{{"totp-gen"}, {"totp-gen-sha512-6-p60"}, {"totp-validate-hit"}}, [2]int{1, 2}, false},
 	{"after refusals: hotp||hotp-validate||ocra", []string{"refused-calls", "refused-calls"}, [][]string{{"hotp-c2^40-sha256-8"}, {"hotp-validate-hit(-1)"}, {"ocra-short"}}, [2]int{1, 2}, false},
 	{"refusals||totp||totp", nil, [][]string{{"refused-calls"}, {"totp-gen", "totp-gen-sha512-6-p60"}, {"totp-gen-sha512-6-p60", "totp-gen"}}, [2]int{1, 2}, false},
+	{"refusals of a kind overlap: short||short", nil, [][]string{{"ocra-refused-short-2-of-8"}, {"ocra-refused-short-7-of-10"}}, [2]int{2, 3}, false},
+	{"refusals of a kind overlap: long||long||counter", nil, [][]string{{"ocra-refused-long-200"}, {"ocra-refused-long-129"}, {"ocra-refused-counter-3", "ocra-refused-counter-9"}}, [2]int{1, 2}, false},
+	{"refusals of a kind overlap: counter||counter", []string{"ocra-short"}, [][]string{{"ocra-refused-counter-3"}, {"ocra-refused-counter-9"}}, [2]int{2, 3}, false},
 	{"helpers refused||short||a", nil, [][]string{{"helpers-refused", "helpers-short"}, {"helpers-short", "helpers-refused"}, {"helpers-a"}}, [2]int{1, 2}, false},
 	{"helpers||helpers||random", nil, [][]string{{"helpers-a"}, {"helpers-b"}, {"random-secret-2", "random-secret-0"}}, [2]int{1, 2}, false},
 	{"ocra 1||2", []string{"ocra-short"}, [][]string{{"ocra-short"}, {"ocra-long", "ocra-validate-hit"}}, [2]int{1, 2}, false},
